@@ -21,7 +21,12 @@ Decided:
   R11.d  process-wide state inventory: every write to a module-level object anywhere in the package is in
          the frozen table (request-id counter advanced in _dispatch_wsgi; converter tables written by
          _register_converter, called at import only; ERROR_CODE_MAP/__all__ by _module_init, import only;
-         linecache.cache in compile_code keyed by content hash).
+         linecache.cache in compile_code keyed by content hash);
+  R11.e  re-binding composes: what bindings accumulate on a bound route -- pattern, chain of applications, resources,
+         middlewares, slash mode, error renderer -- is computed in BoundRoute.__init__ from the route *being re-bound*
+         (``route.X``) and the binding application, never from the original unbound route (which only supplies what
+         no binding changes: endpoint, render argument, methods): an application that was itself built by embedding
+         is served under a further prefix exactly as it serves on its own, however often it is embedded.
 Declined: behavioural equality of responses before/after (needs running); state inside third-party objects.
 
 Values are judged where they flow (``effects.Flow``: reaching definitions, path conditions), not by the name of the local
@@ -466,6 +471,156 @@ class Ownership(object):
         return sites
 
 
+# attributes of a bound route that every binding builds on (the previous value is that of the route being re-bound)
+ACCUMULATED_ATTRS = ('pattern', 'bound_apps', 'resources', 'middlewares', 'slash_mode', 'render_error')
+
+
+def contributions(fl, fi, slot):
+    """Every expression that can influence what ``slot`` holds at the end of ``fi``, flow-insensitively: the values
+    assigned to it (``x op= v``: v), the arguments of mutating calls on it, and -- transitively -- the same for every
+    local / self-attribute those expressions mention.  -> (expressions, slots followed)"""
+    seen, exprs, todo = set(), [], [slot]
+    muts = [e for e in effects.effects_in(fi.node) if e.kind == 'mutcall']
+    while todo:
+        k = todo.pop()
+        if k in seen:
+            continue
+        seen.add(k)
+        vals = []
+        for d in fl.defs.get(k, []):
+            if d.kind == 'aug':
+                vals.append(d.stmt.value)
+            elif d.value is not None and d.kind in ('assign', 'iter', 'with'):
+                vals.append(d.value)
+        for e in muts:
+            if slot_key(e.target) == k:
+                vals.extend(list(e.node.args) + [kw.value for kw in e.node.keywords])
+        for v in vals:
+            exprs.append(v)
+            for n in ast.walk(v):
+                if isinstance(n, (ast.Name, ast.Attribute)) and isinstance(getattr(n, 'ctx', None), ast.Load):
+                    kk = slot_key(n)
+                    if kk is not None and kk in fl.defs and kk not in seen:
+                        todo.append(kk)
+    return exprs, seen
+
+
+def check_rebinding_composes(rep, repo, route, bi):
+    """R11.e: see the module docstring."""
+    fl = Flow(bi)
+    ps = bi.params()
+    if len(ps) < 3:
+        raise AnalysisError('BoundRoute.__init__: parameters (route, app) not found')
+    rp, ap = ps[1], ps[2]
+
+    def kinds(r, depth=0):
+        """Whose attribute is read: 'route' (the route being re-bound), 'app' (the binding application or something it
+        owns), 'original' (the unbound route), 'other'."""
+        if depth > 6:
+            return {'other'}
+        if isinstance(r, ast.IfExp):
+            return kinds(r.body, depth + 1) | kinds(r.orelse, depth + 1)
+        if isinstance(r, ast.BoolOp):
+            return set().union(*[kinds(v, depth + 1) for v in r.values])
+        if isinstance(r, ast.Call) and call_name(r) == 'getattr' and len(r.args) in (2, 3) and isinstance(r.args[1], ast.Constant):
+            if r.args[1].value == 'unbound_route':
+                return {'original'} | (kinds(r.args[2], depth + 1) if len(r.args) == 3 and not isinstance(r.args[2], ast.Constant) and
+                                       norm(r.args[2]) != rp else set())
+            r = r.args[0]
+            return {'app'} if kinds(r, depth + 1) == {'app'} else {'other'}
+        if isinstance(r, ast.Attribute):
+            if r.attr == 'unbound_route':
+                return {'original'}
+            k = slot_key(r)
+            if k is not None and k in fl.defs:
+                out = set()
+                for d in fl.defs[k]:
+                    out |= kinds(d.value, depth + 1) if d.kind == 'assign' and d.idx is None and d.value is not None else {'other'}
+                return out
+            inner = kinds(r.value, depth + 1)
+            if 'original' in inner:
+                return {'original'}
+            return {'app'} if inner == {'app'} else {'other'}
+        if isinstance(r, ast.Name):
+            if r.id == rp:
+                return {'route'}
+            if r.id == ap:
+                return {'app'}
+            if r.id in fl.defs:
+                out = set()
+                for d in fl.defs[r.id]:
+                    out |= kinds(d.value, depth + 1) if d.kind == 'assign' and d.idx is None and d.value is not None else {'other'}
+                return out
+        return {'other'}
+
+    for attr in ACCUMULATED_ATTRS:
+        slot = 'self.%s' % attr
+        if not fl.defs.get(slot):
+            raise AnalysisError('BoundRoute.__init__: self.%s is not assigned here' % attr)
+        exprs, _ = contributions(fl, bi, slot)
+        reads = []
+        for e in exprs:
+            for n in ast.walk(e):
+                if isinstance(n, ast.Attribute) and n.attr == attr and isinstance(n.ctx, ast.Load) and slot_key(n) != slot:
+                    reads.append((n.value, n))
+                elif isinstance(n, ast.Call) and call_name(n) == 'getattr' and len(n.args) in (2, 3) and \
+                        isinstance(n.args[1], ast.Constant) and n.args[1].value == attr:
+                    reads.append((n.args[0], n))
+        original = [(r, n) for r, n in reads if 'original' in kinds(r)]
+        from_route = [(r, n) for r, n in reads if 'route' in kinds(r)]
+        key = fkey(bi, 'self.%s builds on route.%s' % (attr, attr))
+        if original:
+            n = original[0][1]
+            rep.fail('R11.e', key, 'self.%s of a re-bound route is computed from %s, the %s of the original unbound route: what the bindings so far '
+                     'accumulated (the prefixes / resources / middlewares / applications of the inner embeddings) is lost when an application '
+                     'that was itself built by embedding is embedded again, so it no longer serves what it serves on its own' %
+                     (attr, short(n, 50), attr), route, n)
+            continue
+        if not from_route:
+            unfollowed = [c for e in exprs for c in ast.walk(e) if isinstance(c, ast.Call) and effects.callee_of(repo, bi, c) is not None
+                          and effects.callee_of(repo, bi, c).name.startswith('_')]
+            if unfollowed:
+                raise AnalysisError('BoundRoute.__init__: self.%s is computed by %s, which could not be followed' % (attr, short(unfollowed[0], 40)))
+            rep.fail('R11.e', key, 'self.%s does not build on %s.%s (the route being re-bound): re-binding drops what earlier bindings accumulated' %
+                     (attr, rp, attr), route, fl.defs[slot][0].stmt)
+            continue
+        rep.ok('R11.e', key, 'self.%s is built on %s.%s, the value of the route being re-bound' % (attr, rp, attr), route, from_route[0][1])
+
+
+def check_rebinding_sites(rep, repo, app, route):
+    """R11.e at the two places that start a re-binding: BoundRoute.bind hands the bound route itself to the constructor, and
+    SubApplication.bind_all calls ``bind`` on the embedded application's bound routes -- neither goes back to the unbound
+    route (which would restart from the flat declaration and drop every inner embedding)."""
+    bb = route.func('BoundRoute.bind')
+    fl = Flow(bb)
+    made = [c for c in walk_body(bb.node) if isinstance(c, ast.Call) and
+            (call_name(c) == 'BoundRoute' or norm(c.func) in ('self.__class__', 'type(self)'))]
+    if not made:
+        raise AnalysisError('BoundRoute.bind: no construction of a BoundRoute found')
+    for c in made:
+        first = c.args[0] if c.args and not isinstance(c.args[0], ast.Starred) else next((k.value for k in c.keywords if k.arg == 'route'), None)
+        if first is None:
+            raise AnalysisError('BoundRoute.bind: the route handed to the constructor could not be identified (%s)' % short(c, 50))
+        txt = fl.text(first, stmt_of(route, c))
+        ok = txt == 'self'
+        if not ok and 'unbound_route' not in txt:
+            raise AnalysisError('BoundRoute.bind: the route handed to the constructor (%s) is not understood' % txt)
+        rep.check('R11.e', fkey(bb, 're-binds itself'), ok, 'a bound route is re-bound from itself (prefix, resources, middlewares so far are kept)' if ok else
+                  'BoundRoute.bind re-binds %s instead of the bound route itself: everything the bindings so far accumulated is dropped when its '
+                  'application is embedded' % txt, route, c)
+    ba = app.func('SubApplication.bind_all')
+    afl = Flow(ba)
+    binds = [c for c in walk_body(ba.node) if isinstance(c, ast.Call) and isinstance(c.func, ast.Attribute) and c.func.attr == 'bind']
+    if not binds:
+        raise AnalysisError('SubApplication.bind_all: no .bind(...) call found')
+    for c in binds:
+        txt = afl.text(c.func.value, stmt_of(app, c))
+        ok = 'unbound_route' not in txt
+        rep.check('R11.e', fkey(ba, 're-binds the bound routes'), ok, 'the embedded application\'s bound routes themselves are re-bound' if ok else
+                  'bind_all re-binds %s, the original unbound route, instead of the embedded application\'s bound route: the embedded '
+                  'application\'s own prefixes / resources / middlewares are dropped' % txt, app, c)
+
+
 def run(rep):
     from .c10 import _safe
     repo = rep.repo
@@ -481,6 +636,7 @@ def run(rep):
     rep.rule('R11.b', 'CFG ordering: failing calls precede the first mutation; only inserts follow')
     rep.rule('R11.c', 'running index in add()')
     rep.rule('R11.d', 'every writer of module-level state is in the frozen inventory')
+    rep.rule('R11.e', 'provenance: accumulated attributes of a bound route are built on those of the route being re-bound')
 
     # ---- R11.a -----------------------------------------------------------
     def r11a():
@@ -999,3 +1155,14 @@ def run(rep):
                   'MetaApplication extends the shared DEFAULT_PERIPHERALS list in place', repo.mod('clastic.meta'), dp.node)
     rep_guard(r11d)
     rep_guard(rep.floor, 'R11.d', 8)
+
+    # ---- R11.e -----------------------------------------------------------
+    def rebinding_composes():
+        bi = route.func('BoundRoute.__init__')
+        check_rebinding_composes(rep, repo, route, bi)
+
+    def rebinding_sites():
+        check_rebinding_sites(rep, repo, app, route)
+    rep_guard(rebinding_composes)
+    rep_guard(rebinding_sites)
+    rep_guard(rep.floor, 'R11.e', 8)
